@@ -49,9 +49,32 @@ fn word_text(chars: &[char], classes: &[char]) -> TextOwn {
 }
 
 fn distance(d: &DamerauLevenshtein, a: &[char], ca: &[char], b: &[char], cb: &[char]) -> f64 {
-    let ta = word_text(a, ca);
-    let tb = word_text(b, cb);
+    distance_fin(d, a, ca, b, cb, true, true)
+}
+
+/// `fa` / `fb`: the "finished" flag of each word (a typing user's last word is unfinished). The
+/// distance is a function of the two words and their classes; the flag must not matter.
+fn distance_fin(d: &DamerauLevenshtein, a: &[char], ca: &[char], b: &[char], cb: &[char], fa: bool, fb: bool) -> f64 {
+    let ta = word_text(a, ca).fin(fa);
+    let tb = word_text(b, cb).fin(fb);
     d.distance(&ta.view(0), &tb.view(0))
+}
+
+/// Renames the characters of both sequences consistently (first distinct character -> first
+/// letter of a private alphabet, ...). Equality pattern, lengths and order are preserved.
+fn relabel(a: &[char], b: &[char]) -> (Vec<char>, Vec<char>) {
+    let mut map: HashMap<char, char> = HashMap::new();
+    let mut next = 0x4e00u32; // CJK ideographs: letters, no case, no folding, nothing else uses them here
+    let mut f = |c: &char| -> char {
+        *map.entry(*c).or_insert_with(|| {
+            let r = char::from_u32(next).unwrap_or('x');
+            next += 1;
+            r
+        })
+    };
+    let ra: Vec<char> = a.iter().map(&mut f).collect();
+    let rb: Vec<char> = b.iter().map(&mut f).collect();
+    (ra, rb)
 }
 
 fn levenshtein(a: &[char], b: &[char]) -> usize {
@@ -116,15 +139,18 @@ pub fn step(ex: &mut Exec, ix: usize, op: &Op) {
             ex.out.executed += 1;
             let a: Vec<char> = a.chars().collect();
             let b: Vec<char> = b.chars().collect();
-            let ca: Vec<char> = ca.chars().collect();
-            let cb: Vec<char> = cb.chars().collect();
+            // a trailing '~' in a class string marks that word as unfinished (op format stays as it was)
+            let fa = !ca.ends_with('~');
+            let fb = !cb.ends_with('~');
+            let ca: Vec<char> = ca.trim_end_matches('~').chars().collect();
+            let cb: Vec<char> = cb.trim_end_matches('~').chars().collect();
             let short = a.len() <= SHORT && b.len() <= SHORT;
             let (a1, ca1, b1, cb1) = (a.clone(), ca.clone(), b.clone(), cb.clone());
             // --- the call under test: long-lived instance of this simulated caller thread
             let res = ex.thread(*t).unwrap().run(move || {
                 with_inst(|d, _| {
                     let before = d.dists.borrow().size();
-                    let v = distance(d, &a1, &ca1, &b1, &cb1);
+                    let v = distance_fin(d, &a1, &ca1, &b1, &cb1, fa, fb);
                     let m = d.dists.borrow();
                     let after = m.size();
                     let mut cells = Vec::new();
@@ -313,10 +339,13 @@ pub fn step(ex: &mut Exec, ix: usize, op: &Op) {
                     }
                     let scrambled = j.similarity(&a2, &b2);
                     let ba = j.similarity(&b1, &a1);
-                    (ab, ba, scrambled)
+                    // a set similarity depends only on which characters are equal: rename them all
+                    let (ra, rb) = relabel(&a1, &b1);
+                    let renamed = j.similarity(&ra, &rb);
+                    (ab, ba, scrambled, renamed)
                 })
             });
-            let (ab, ba, scrambled) = match res {
+            let (ab, ba, scrambled, renamed) = match res {
                 Ok(x) => x,
                 Err(p) => {
                     ex.rec(ix, op, &p.render());
@@ -355,6 +384,8 @@ pub fn step(ex: &mut Exec, ix: usize, op: &Op) {
                 ex.viol("C17", "C17.value", ix, "", obs, format!("|A∩B|/|A∪B| = {}/{} = {:?}", inter, union, want));
             } else if ba.to_bits() != ab.to_bits() {
                 ex.viol("C17", "C17.symmetry", ix, "", obs, format!("similarity(b,a) = {:?}", ba));
+            } else if renamed.to_bits() != ab.to_bits() {
+                ex.viol("C17", "C17.relabel", ix, "", obs, format!("{:?} after renaming every character consistently", renamed));
             } else if scrambled.to_bits() != ab.to_bits() {
                 ex.viol("C17", "C17.repetition_order", ix, "", obs, format!("with a reversed+doubled and b rotated: {:?}", scrambled));
             } else if !(ab >= 0.0 && ab <= 1.0) {
@@ -380,7 +411,15 @@ pub fn step(ex: &mut Exec, ix: usize, op: &Op) {
                     if rt.words.is_empty() || qt.words.is_empty() {
                         return "no-word".to_string();
                     }
-                    format!("{}", lib::verif::jaccard_check(&rt.view(0), &qt.view(0)))
+                    let plain = lib::verif::jaccard_check(&rt.view(0), &qt.view(0));
+                    // the same pair with every character renamed consistently (no tokeniser involved:
+                    // both words keep their length, stem, classes and "finished" flag)
+                    let (rw, qw) = (rt.view(0), qt.view(0));
+                    let (ra, qa) = relabel(rw.chars(), qw.chars());
+                    let rt2 = word_text(&ra, &[]).fin(rw.fin);
+                    let qt2 = word_text(&qa, &[]).fin(qw.fin);
+                    let renamed = lib::verif::jaccard_check(&rt2.view(0), &qt2.view(0));
+                    format!("{} renamed={}", plain, renamed)
                 }
             };
             let got = match ex.thread(*t).unwrap().run(call(r.clone(), q.clone(), *fin)) {
@@ -404,7 +443,10 @@ pub fn step(ex: &mut Exec, ix: usize, op: &Op) {
             match ex.pristine_ref(call(r.clone(), q.clone(), *fin)) {
                 Ok(want) if want == got => {}
                 Ok(want) => ex.viol("C17", "C17.prefilter_history", ix, "", format!("jaccard pre-filter({:?},{:?}) = {}", r, q, got), format!("{} on a thread that compared nothing before", want)),
-                Err(p) => ex.viol("C17", "C17.reference_panic", ix, &p.loc, got, p.render()),
+                Err(p) => ex.viol("C17", "C17.reference_panic", ix, &p.loc, got.clone(), p.render()),
+            }
+            if got == "true renamed=false" || got == "false renamed=true" {
+                ex.viol("C17", "C17.prefilter_relabel", ix, "", format!("jaccard pre-filter({:?},{:?}) = {}", r, q, got), "the same verdict after renaming every character consistently (a set similarity sees only which characters are equal)".into());
             }
         }
         Op::WMatch { t, r, q, fin } => {
